@@ -11,6 +11,9 @@ def run(ctx):
     magg, mviol, msamples, lost = shm.run_miri(ctx, "c02", 48 if q else 1024, 20)
     ctx.log("miri: %s, lost %d" % (magg, lost))
     viol = viol + shm.miri_violations_for(ctx, mviol, "C02")
+    pagg, pviol = shm.run_proc(ctx, 8 if q else 120)
+    ctx.log("proc: %s" % pagg)
+    viol += [v for v in pviol if v["sig"] in ("proc-torn-snapshot", "proc-torn-or-error", "proc-unpublished", "reader-crashed", "reader-died")]
     inconclusive = None
     if cov["overlapped_calls"] < 1000 or magg["publication_changes_seen"] < 100 or magg["nondefault_snapshots"] < 500:
         inconclusive = "monitors observed too little (overlapped calls %d, miri publication changes %d)" % (cov["overlapped_calls"], magg["publication_changes_seen"])
@@ -25,6 +28,7 @@ def run(ctx):
         "samples": samples[:2] + [{"miri": s} for s in msamples[:2]],
         "sched": cov,
         "miri": dict(magg, processes_lost=lost),
+        "proc": pagg,
         "exhaustive": False,
     }
     finish(ctx, coverage, viol, inconclusive, assumptions=[
